@@ -2,14 +2,15 @@
 (the repository's own test data and the adversarial packages under /verif/fixtures/pkgs)."""
 from __future__ import annotations
 
+from pyvc import FIXTURES, HOME  # noqa: F401
 import functools
 import logging
 import os
 
 PKGS = [
-    ("/verif/fixtures/pkgs/kwpkg", "numpydoc"),
+    (FIXTURES + "/kwpkg", "numpydoc"),
     ("/repo/tests/data/various_modules_package", "plaintext"),
-    ("/verif/fixtures/pkgs/advpkg", "numpydoc"),
+    (FIXTURES + "/advpkg", "numpydoc"),
     ("/repo/tests/data/docstring_parser_package", "numpydoc"),
     ("/repo/tests/data/docstring_parser_package", "google"),
     ("/repo/tests/data/docstring_parser_package", "rest"),
@@ -25,7 +26,7 @@ def hidden_verif():
     """The real code runs without /verif on sys.path (griffe names packages relative to sys.path entries)."""
     import sys
     saved = list(sys.path)
-    sys.path[:] = [p for p in sys.path if os.path.abspath(p or ".") != "/verif"]
+    sys.path[:] = [p for p in sys.path if os.path.abspath(p or ".") != HOME]
     try:
         yield
     finally:
@@ -43,7 +44,7 @@ def api_for(path, docstyle="plaintext", testrun=True, pref="code"):
     # griffe names a package relative to the sys.path entry that contains it: the fixture packages live under
     # /verif, which is on sys.path for the sidecar modules, so it is hidden while the analyser runs
     saved = list(sys.path)
-    sys.path[:] = [p for p in sys.path if os.path.abspath(p or ".") != "/verif"]
+    sys.path[:] = [p for p in sys.path if os.path.abspath(p or ".") != HOME]
     try:
         return get_api(Path(path), DocstringStyle.from_string(docstyle), testrun,
                        TypeSourcePreference.from_string(pref), TypeSourceWarning.IGNORE)
